@@ -10,7 +10,7 @@ ID = 'C02'
 CRATES = ['jj-lib']
 NATIVE = 'c02'
 BOUNDS = {
-    'quick': 'every term list of arity 1,3,5,7 (all equality patterns, values unbounded), SameChange in {Keep, Accept}, every HashMap iteration order',
+    'quick': 'every term list of arity 1,3,5,7 (all equality patterns, values unbounded), SameChange in {Keep, Accept}, every HashMap iteration order (identity and reverse only for maps with more than 3 entries at arity 7); arity 9 restricted to term lists with at least 4 equal (add, remove) pairs - the conflicts that can resolve at all - HashMap order identity or reverse',
     'thorough': 'arity 1..9, both SameChange settings, every HashMap iteration order',
 }
 ASSUMPTIONS = [
@@ -26,6 +26,11 @@ def jobs(tier):
     for n in ([1, 3, 5, 7] if tier == 'quick' else [1, 3, 5, 7, 9]):
         for sc in ('Keep', 'Accept'):
             out.append(dict(name=f'arity{n}-{sc}', n=n, sc=sc, rung=0 if n <= 5 else n, weight=n ** 4, split=('enumerate', 8) if n >= 7 else None, max_orders=720 if n <= 5 else 6))
+    if tier == 'quick':
+        # arity 9 restricted to the inputs on which a resolution is possible at all: at least 4 (add, remove) pairs of equal terms, i.e. the conflicts that
+        # (nearly) cancel; every equality pattern of arity 9 is in the thorough tier
+        for sc in ('Keep', 'Accept'):
+            out.append(dict(name=f'arity9-{sc}-cancelling', n=9, sc=sc, cancel=4, rung=9, weight=9 ** 3, split=('enumerate', 8), max_orders=2))
     return out
 
 def spec(vals, sc):
@@ -59,7 +64,11 @@ def run_job(ix, job, tier):
         return dict(input=dict(vals=[mval(m, v) for v in vals], same_change=sc),
                     expect=None if kind != 'ok' else dict(r=None if out is None else mval(m, vals[out])))
     def hook(e): e.max_orders = job.get('max_orders', 720)
-    return explore_job(ix, job['name'], run, obligations, witness=witness, deadline=job.get('deadline'), split=job.get('split'), engine_hook=hook)
+    pre = None
+    if job.get('cancel') is not None:
+        pairs = [(vals[i] == vals[j], 1) for i in range(0, n, 2) for j in range(1, n, 2)]
+        pre = z3.PbGe(pairs, job['cancel'])
+    return explore_job(ix, job['name'], run, obligations, witness=witness, deadline=job.get('deadline'), split=job.get('split'), engine_hook=hook, pre=pre)
 
 def compare_native(case, native):
     exp = case.get('expect')
